@@ -23,7 +23,7 @@ RULE = (
 )
 ASSUMPTIONS = [
     "an instance 'has sent its first offer' once it queued it (as C10); a Find arriving between queueing and transmission of the first offer may or may not be answered",
-    "a delayed answer whose instance was stopped meanwhile must not be sent (C10); stopped and restarted meanwhile: either",
+    "a delayed answer whose instance was stopped meanwhile must not be sent (C10); stopped and restarted meanwhile: either if the new run has offered by the due time, otherwise (initial wait phase) silence",
     "one FindService entry per datagram (several datagrams may share an iteration)",
     "reference matcher: service ids equal; instance id, major and minor version equal unless the request carries the wildcard",
 ]
@@ -201,10 +201,11 @@ def run_case(case):
                 st_ = r["stop"]
                 if st_ is not None and st_ < due - RES:
                     # stopped before the answer was due: nothing may be sent; restarted meanwhile: either
-                    if len(runs[i]) - 1 > ri and runs[i][ri + 1]["t0"] <= due + RES:
-                        ready = "either"
+                    nxt = runs[i][ri + 1] if len(runs[i]) - 1 > ri else None
+                    if nxt is not None and nxt["t0"] <= due + RES and nxt["first"] is not None and nxt["first"] <= due + RES and (nxt["stop"] is None or nxt["stop"] >= due - RES):
+                        ready = "either"   # restarted meanwhile and offering again by the time the answer is due
                     else:
-                        continue
+                        continue           # stopped, or restarted but still in its initial wait phase: silence
                 elif st_ is not None and abs(st_ - due) < RES:
                     ready = "either"
                 key = (fd["src"], i, round(due, 9))
